@@ -289,3 +289,234 @@ func (t *fltTr) emitLoaderState(repo string) (string, error) {
 	sb.WriteString("].\n\n")
 	return sb.String(), nil
 }
+
+// ---------------------------------------------------------------- run-time state of the filter closures
+//
+// A filter closure is called once per match; what it answers must be a function of the match and of the run's context. This
+// reader lists every place where the code that runs per match STORES something that outlives the call: for every function of
+// filters.go, every method of *filterParams (gorule.go) and every function of utils.go
+//   - writes through a *filterParams value (`params.f = ..`, `params.f[k] = ..`, `params.f.g = ..`, ++/--, delete / append /
+//     copy / clear on it, its address taken), reported as `params.<field>`,
+//   - writes to package-level variables of package ruleguard,
+//   - writes, inside a function literal, to a variable declared at the top level of the surrounding function declaration (a
+//     table the constructor creates once and its closure fills across matches), reported as `captured:<name>`.
+// The Coq side (RG.Filters.LoaderState.run_state_okb) compares the list with the audited one: a memo table, a counter, a
+// "previous match" slot all show up here.
+
+func flt_isFilterParams(e ast.Expr) bool {
+	if st, ok := e.(*ast.StarExpr); ok {
+		e = st.X
+	}
+	id, ok := e.(*ast.Ident)
+	return ok && id.Name == "filterParams"
+}
+
+func (t *fltTr) runStateOf(fd *ast.FuncDecl, pkgVars map[string]bool, out map[[2]string]bool) {
+	if fd.Body == nil {
+		return
+	}
+	fn := fd.Name.Name
+	if fd.Recv != nil && len(fd.Recv.List) == 1 {
+		switch rt := fd.Recv.List[0].Type.(type) {
+		case *ast.StarExpr:
+			if id, ok := rt.X.(*ast.Ident); ok {
+				fn = id.Name + "." + fn
+			}
+		case *ast.Ident:
+			fn = rt.Name + "." + fn
+		}
+	}
+	// names bound to a *filterParams anywhere in the declaration (receiver, parameters of the function and of its literals)
+	paramsNames := map[string]bool{}
+	ast.Inspect(fd, func(n ast.Node) bool {
+		if f, ok := n.(*ast.Field); ok && flt_isFilterParams(f.Type) {
+			for _, id := range f.Names {
+				paramsNames[id.Name] = true
+			}
+		}
+		return true
+	})
+	// top-level declarations of the function: parameters, results, := / var / range outside every function literal
+	top := map[string]bool{}
+	for _, fl := range []*ast.FieldList{fd.Type.Params, fd.Type.Results} {
+		if fl != nil {
+			for _, f := range fl.List {
+				for _, id := range f.Names {
+					top[id.Name] = true
+				}
+			}
+		}
+	}
+	var declared func(n ast.Node, into map[string]bool, stopAtLit bool)
+	declared = func(root ast.Node, into map[string]bool, stopAtLit bool) {
+		ast.Inspect(root, func(n ast.Node) bool {
+			switch x := n.(type) {
+			case *ast.FuncLit:
+				if stopAtLit && n != root {
+					return false
+				}
+				if n != root {
+					return true
+				}
+			case *ast.AssignStmt:
+				if x.Tok == token.DEFINE {
+					for _, l := range x.Lhs {
+						if id, ok := l.(*ast.Ident); ok {
+							into[id.Name] = true
+						}
+					}
+				}
+			case *ast.ValueSpec:
+				for _, id := range x.Names {
+					into[id.Name] = true
+				}
+			case *ast.RangeStmt:
+				if x.Tok == token.DEFINE {
+					for _, e := range []ast.Expr{x.Key, x.Value} {
+						if id, ok := e.(*ast.Ident); ok {
+							into[id.Name] = true
+						}
+					}
+				}
+			case *ast.Field:
+				for _, id := range x.Names {
+					into[id.Name] = true
+				}
+			}
+			return true
+		})
+	}
+	declared(fd.Body, top, true)
+	// every local of the declaration, for shadowing of package-level names
+	local := map[string]bool{}
+	declared(fd, local, false)
+
+	base := func(e ast.Expr) (string, bool) {
+		for {
+			switch x := e.(type) {
+			case *ast.ParenExpr:
+				e = x.X
+			case *ast.StarExpr:
+				e = x.X
+			case *ast.IndexExpr:
+				e = x.X
+			case *ast.SliceExpr:
+				e = x.X
+			case *ast.SelectorExpr:
+				if id, ok := x.X.(*ast.Ident); ok && paramsNames[id.Name] {
+					return "params." + x.Sel.Name, true
+				}
+				e = x.X
+			case *ast.Ident:
+				return x.Name, false
+			default:
+				return "", false
+			}
+		}
+	}
+	var walk func(n ast.Node, lits []*ast.FuncLit)
+	write := func(e ast.Expr, lits []*ast.FuncLit) {
+		name, isParams := base(e)
+		switch {
+		case name == "" || name == "_":
+		case isParams:
+			out[[2]string{fn, name}] = true
+		case pkgVars[name] && !local[name]:
+			out[[2]string{fn, name}] = true
+		case len(lits) > 0 && top[name]:
+			// declared again inside one of the literals the write stands in: a local of that literal
+			for _, fl := range lits {
+				inner := map[string]bool{}
+				declared(fl, inner, false)
+				if inner[name] {
+					return
+				}
+			}
+			out[[2]string{fn, "captured:" + name}] = true
+		}
+	}
+	walk = func(root ast.Node, lits []*ast.FuncLit) {
+		ast.Inspect(root, func(n ast.Node) bool {
+			switch x := n.(type) {
+			case *ast.FuncLit:
+				if n != root {
+					walk(x, append(append([]*ast.FuncLit{}, lits...), x))
+					return false
+				}
+			case *ast.CallExpr:
+				if id, ok := x.Fun.(*ast.Ident); ok && (id.Name == "delete" || id.Name == "append" || id.Name == "copy" || id.Name == "clear") && len(x.Args) > 0 {
+					write(x.Args[0], lits)
+				}
+			case *ast.AssignStmt:
+				if x.Tok != token.DEFINE {
+					for _, l := range x.Lhs {
+						write(l, lits)
+					}
+				}
+			case *ast.IncDecStmt:
+				write(x.X, lits)
+			case *ast.UnaryExpr:
+				if x.Op == token.AND {
+					write(x.X, lits)
+				}
+			case *ast.RangeStmt:
+				if x.Tok == token.ASSIGN {
+					for _, e := range []ast.Expr{x.Key, x.Value} {
+						if e != nil {
+							write(e, lits)
+						}
+					}
+				}
+			}
+			return true
+		})
+	}
+	walk(fd.Body, nil)
+}
+
+func (t *fltTr) emitRunState(repo string) (string, error) {
+	pkgVars, err := flt_pkgVars(t.fset, repo+"/ruleguard")
+	if err != nil {
+		return "", err
+	}
+	out := map[[2]string]bool{}
+	for _, name := range []string{"filters.go", "gorule.go", "utils.go"} {
+		f, err := flt_parseFile(t.fset, repo+"/ruleguard/"+name)
+		if err != nil {
+			return "", err
+		}
+		for _, d := range f.Decls {
+			fd, ok := d.(*ast.FuncDecl)
+			if !ok {
+				continue
+			}
+			if name == "gorule.go" {
+				// only the methods of filterParams run per match
+				if fd.Recv == nil || len(fd.Recv.List) != 1 || !flt_isFilterParams(fd.Recv.List[0].Type) {
+					continue
+				}
+			}
+			t.runStateOf(fd, pkgVars, out)
+		}
+	}
+	var keys [][2]string
+	for k := range out {
+		keys = append(keys, k)
+	}
+	sort.Slice(keys, func(i, j int) bool {
+		if keys[i][0] != keys[j][0] {
+			return keys[i][0] < keys[j][0]
+		}
+		return keys[i][1] < keys[j][1]
+	})
+	var sb strings.Builder
+	sb.WriteString("(* filters.go, utils.go, the methods of filterParams: (function, storage it writes that outlives the call) *)\nDefinition gen_run_state : list (string * string) := [")
+	for i, k := range keys {
+		if i > 0 {
+			sb.WriteString("; ")
+		}
+		fmt.Fprintf(&sb, "(%s, %s)", flt_coqStr(k[0]), flt_coqStr(k[1]))
+	}
+	sb.WriteString("].\n\n")
+	return sb.String(), nil
+}
